@@ -82,7 +82,8 @@ static ExprP leafExpr(Rng &rng, bool wantBool)
     if (rng.chance(0.75)) {
         return mkCi("", static_cast<int>(rng.below(6)));
     }
-    return mkCnD(rng.pick(std::vector<double>{0.5, 2.0, 1.5, 3.0, 0.25, 1.2, 0.8, 4.0}));
+    // (a zero now and then: !(a*b) and (!a)*b, or a && b and a * b, only differ when an operand is zero)
+    return mkCnD(rng.pick(std::vector<double>{0.5, 2.0, 1.5, 3.0, 0.25, 1.2, 0.8, 4.0, 0.0, 0.0}));
 }
 
 static bool wantsBoolKids(Op op)
@@ -380,6 +381,10 @@ static std::vector<ScaledShape> allScaledShapes()
 {
     std::vector<ScaledShape> s;
     const auto &ops = valueOps();
+    // no operator at all: y = X, the right-hand side is the converted variable itself (six times: several sources)
+    for (int i = 0; i < 6; ++i) {
+        s.push_back({-1, 1, 0});
+    }
     for (size_t p = 0; p < ops.size(); ++p) {
         std::vector<int> arities;
         if (ops[p].op == Op::PIECEWISE) {
@@ -481,8 +486,9 @@ static void runScaledPositions(Ctx &ctx, int64_t modelIndex)
             break;
         }
         const auto &sh = shapes[si];
-        const auto &oi = ops[static_cast<size_t>(sh.op)];
-        bool boolKids = wantsBoolKids(oi.op);
+        static const OpInfo identity = {Op::PLUS, 1, 1, false, false};
+        const auto &oi = sh.op < 0 ? identity : ops[static_cast<size_t>(sh.op)];
+        bool boolKids = sh.op >= 0 && wantsBoolKids(oi.op);
         ExprP e;
         bool ok = false;
         std::string usedSrc;
@@ -507,14 +513,18 @@ static void runScaledPositions(Ctx &ctx, int64_t modelIndex)
                 static const std::vector<Op> rel = {Op::LT, Op::GT, Op::LEQ, Op::GEQ, Op::NEQ};
                 return mkOp(rng.pick(rel), {a, mkCnD(rng.pick(std::vector<double>{0.5, 1.0, 2.0, 1.5}))});
             };
-            e = mkOp(oi.op, {});
-            e->hasQualifier = oi.qualifier;
-            if (oi.op == Op::PIECEWISE) {
-                e->hasOtherwise = true;
-            }
-            for (int i = 0; i < sh.arity; ++i) {
-                bool wb = oi.op == Op::PIECEWISE ? i == 1 : boolKids;
-                e->kids.push_back((sh.pos < 0 || i == sh.pos) ? converted(wb) : plain(wb));
+            if (sh.op < 0) {
+                e = converted(false);
+            } else {
+                e = mkOp(oi.op, {});
+                e->hasQualifier = oi.qualifier;
+                if (oi.op == Op::PIECEWISE) {
+                    e->hasOtherwise = true;
+                }
+                for (int i = 0; i < sh.arity; ++i) {
+                    bool wb = oi.op == Op::PIECEWISE ? i == 1 : boolKids;
+                    e->kids.push_back((sh.pos < 0 || i == sh.pos) ? converted(wb) : plain(wb));
+                }
             }
             ok = true;
             for (size_t p = 0; p < 3 && ok; ++p) {
@@ -547,7 +557,7 @@ static void runScaledPositions(Ctx &ctx, int64_t modelIndex)
         m.q.push_back(y);
         m.order.push_back(static_cast<int>(m.q.size()) - 1);
         exprs.push_back(e);
-        std::string nm = std::string("converted-operand:") + opName(oi.op) + (oi.qualifier ? "^q" : "") + "/" + std::to_string(sh.arity) + "@" + (sh.pos < 0 ? std::string("all") : std::to_string(sh.pos));
+        std::string nm = sh.op < 0 ? std::string("converted-operand:bare-variable") : std::string("converted-operand:") + opName(oi.op) + (oi.qualifier ? "^q" : "") + "/" + std::to_string(sh.arity) + "@" + (sh.pos < 0 ? std::string("all") : std::to_string(sh.pos));
         labels.push_back(nm);
         seen("converted_operand_shape", nm);
         seen("converted_operand_source", usedSrc.substr(0, 1));
@@ -678,7 +688,8 @@ void vh_run_case(Ctx &ctx)
         runShapes(ctx, (ctx.index * 3 + static_cast<int64_t>(ctx.seed % 3)) % nShapeModels, false);
     } else if (ctx.index < third + half) {
         // a seed-chosen half of the converted-operand models
-        runScaledPositions(ctx, ((ctx.index - third) * 2 + static_cast<int64_t>(ctx.seed % 2)) % scaledModels());
+        // (model 0, the bare-variable equations, is always among them)
+        runScaledPositions(ctx, ctx.index == third ? 0 : ((ctx.index - third) * 2 + static_cast<int64_t>(ctx.seed % 2)) % scaledModels());
     } else {
         runSystem(ctx);
     }
